@@ -154,6 +154,21 @@ theorem C18_R1_code_mod {fs : Files} {la lb : List Str} {D : Nat} {A B : Assembl
   obtain ⟨hrel, hinc⟩ := parseLines_shift la lb _ _ hsh.pw stA.hparse stB.hparse
   exact C18_R1_parsed_code_mod stA.hparse stB.hparse hrel hinc (head_org hl hn hla stA.hparse) stA stB
 
+/-- C18-R1, value level, for source text, the fourth class (`MovedNeg`: `number - label`): conclusions as in
+`C18_R1_parsed_code_neg` -/
+theorem C18_R1_code_neg {fs : Files} {la lb : List Str} {D : Nat} {A B : Assembly}
+    (hsh : ShiftOrgP D (OrgOk D) la lb)
+    (hhead : ∃ lab n rest, lab.all isLabelCh = true ∧ n < 65536 ∧ la = orgLine lab n :: rest)
+    (stA : Stages fs la A) (stB : Stages fs lb B) :
+    ∀ (i : Nat) (s4 t t' : Stmt), stA.ss4[i]? = some s4 → A.stmts[i]? = some t → B.stmts[i]? = some t' →
+      MovedNeg stA.ss4 s4 → t'.pkg.additional = shiftVneg D t.pkg.additional ∧
+        ∀ bs, stmtBytes t = some bs →
+          ∃ pre x y, t.pkg.additional.int? = some x ∧ x < 65536 ∧ y < 65536 ∧ (y + D) % 65536 = x ∧
+            bs = pre ++ [x / 256, x % 256] ∧ stmtBytes t' = some (pre ++ [y / 256, y % 256]) := by
+  obtain ⟨lab, n, rest, hl, hn, hla⟩ := hhead
+  obtain ⟨hrel, hinc⟩ := parseLines_shift la lb _ _ hsh.pw stA.hparse stB.hparse
+  exact C18_R1_parsed_code_neg stA.hparse stB.hparse hrel hinc (head_org hl hn hla stA.hparse) stA stB
+
 /-! ## the statement of Props/C18.lean is false -/
 
 def r1lineA : Str := "X NOP ; ORG $1000\n".toList
@@ -475,11 +490,12 @@ set_option maxRecDepth 1000000 in
 theorem wrapB_ok : checkProgram wrapB (fun A => A.image == some [0x00, 0x80, 0x8E, 0x00, 0x80]) = true := by decide
 
 /-- (v) signed constants (repair batch B2), outside the class `Moved`: `A+N` with `N EQU -384` and `A` at `$0100` has
-the NEGATIVE value `-$80`.  `calculate_address_offset` does not reduce `label + N` modulo `$10000` (it does reduce
-`label - N`), so the value is a negative number, which `fit_operand_width` stores in two's complement: `FF80`.  At
-`$0200` the value is `$0080`.  Both programs are accepted and the 16-bit field moves by `D` MODULO `$10000`
-(`reloc_fixFit_label_plus_mod`, class `MovedMod`), not by `D`: this is why `Moved` (`NumExpr`) asks for a value that
-is not negative. -/
+the NEGATIVE value `-$80`.  Since repair batch B3 `calculate_address_offset` reduces a negative `label + N` modulo
+`$10000` itself (before, the value stayed a negative number that `fit_operand_width` stored in two's complement; the
+bytes are the same): `FF80`.  At `$0200` the value is `$0080`.  Both programs are accepted and the 16-bit field moves by
+`D` MODULO `$10000` (`reloc_fixFit_label_plus_mod`, class `MovedMod`), not by `D`: this is why `Moved` (`NumExpr`) asks
+for a (reduced) value that stays at most `$FFFF` when moved.  Re-examined on the B3 model: images and classes are
+unchanged. -/
 theorem reloc_signed_wrap :
     (∃ A, assemble [] wrapA = .ok A ∧ A.image = some [0xFF, 0x80, 0x8E, 0xFF, 0x80]) ∧
     (∃ B, assemble [] wrapB = .ok B ∧ B.image = some [0x00, 0x80, 0x8E, 0x00, 0x80]) := by
@@ -530,22 +546,337 @@ theorem reloc_signed_wrap_witness : ∃ A B, assemble [] wrapA = .ok A ∧ assem
   · intro i s4 t t' hs4 ht ht' hc
     exact (C18_R1_code_mod wrap_shift hhd stA stB i s4 t t' hs4 ht ht' hc).1
 
-/-- (vi) signed constants, outside the class `Unmoved`: a PCR operand whose target `A+N` is NEGATIVE.  With
-`N EQU -258` and `A` at `$0100` the target is `-2`; `fix_addresses` takes the magnitude of the value (`.int`), aims at
-`+2`, and stores the displacement `2 - $0104 = $FEFE`.  At `$0200` the target is `$00FE` and the displacement is
-`$00FE - $0204 = $FEFA` (the right one in both places).  The code of a PCR operand changes under relocation: this is
-why the PCR case of `Unmoved` (`NumExpr`) asks for a target that is not negative. -/
-theorem reloc_signed_pcr_negative_target :
+/-- (vi) signed constants, a PCR operand whose target `A+N` is NEGATIVE — finding `reloc_signed_pcr_negative_target` of
+batch B2, REPAIRED in batch B3.  With `N EQU -258` and `A` at `$0100` the target is `-2`; `fix_addresses` used to take
+the magnitude of the value (`.int`), aimed at `+2` and stored the displacement `2 - $0104 = $FEFE`, against `$FEFA` at
+`$0200`: the code of a PCR operand changed under relocation.  Now `calculate_address_offset` reduces the negative
+target modulo `$10000` (`$FFFE`), the displacement is `$FFFE - $0104 = $FEFA` — it aims at `-2` — in both placements,
+and the PCR code is IDENTICAL. -/
+theorem reloc_signed_pcr_negative_target_fixed :
     (∃ A, assemble [] (lines [" ORG $0100\n", "N EQU -258\n", "A LEAX A+N,PCR\n"]) = .ok A ∧
-      A.image = some [0x30, 0x8D, 0xFE, 0xFE]) ∧
+      A.image = some [0x30, 0x8D, 0xFE, 0xFA]) ∧
     (∃ B, assemble [] (lines [" ORG $0200\n", "N EQU -258\n", "A LEAX A+N,PCR\n"]) = .ok B ∧
       B.image = some [0x30, 0x8D, 0xFE, 0xFA]) := by
   constructor
   · obtain ⟨A, hA, c⟩ := checkProgram_sound (lines := lines [" ORG $0100\n", "N EQU -258\n", "A LEAX A+N,PCR\n"])
-      (check := fun A => A.image == some [0x30, 0x8D, 0xFE, 0xFE]) (by decide) []
+      (check := fun A => A.image == some [0x30, 0x8D, 0xFE, 0xFA]) (by decide) []
     exact ⟨A, hA, by simpa using c⟩
   · obtain ⟨B, hB, c⟩ := checkProgram_sound (lines := lines [" ORG $0200\n", "N EQU -258\n", "A LEAX A+N,PCR\n"])
       (check := fun A => A.image == some [0x30, 0x8D, 0xFE, 0xFA]) (by decide) []
     exact ⟨B, hB, by simpa using c⟩
+
+def pcrNegBody : List Str := ["N EQU -258\n", "A LEAX A+N,PCR\n"].map String.toList
+def pcrNegA : List Str := orgLine [] 0x0100 :: pcrNegBody
+def pcrNegB : List Str := orgLine [] 0x0200 :: pcrNegBody
+
+example : pcrNegA = lines [" ORG $0100\n", "N EQU -258\n", "A LEAX A+N,PCR\n"] := by decide
+example : pcrNegB = lines [" ORG $0200\n", "N EQU -258\n", "A LEAX A+N,PCR\n"] := by decide
+
+theorem pcrNeg_shift : ShiftOrgP 0x100 (OrgOk 0x100) pcrNegA pcrNegB :=
+  shiftOrgP_single [] 0x0100 pcrNegBody (by decide) (by unfold OrgOk; omega) (by omega) (by decide)
+
+set_option maxRecDepth 1000000 in
+/-- every statement of the repaired witness is `Unmoved` (evaluated): the PCR operand with the negative target through
+`TargetMovesMod` (the target `$FFFE` moves to `$00FE`, i.e. by `$100` modulo `$10000`) -/
+theorem pcrNegA_classes :
+    (stage4 pcrNegA).map (fun as => as.map (fun s => unmovedB 0x100 as s)) = some [true, true, true] := by decide
+
+/-- (vi, continued) the repaired witness under the class theorems: every statement that enters `fixAll` is `Unmoved`,
+and statement by statement operand field and code are IDENTICAL in the two placements -/
+theorem reloc_signed_pcr_negative_target_unmoved : ∃ A B, assemble [] pcrNegA = .ok A ∧ assemble [] pcrNegB = .ok B ∧
+    ∀ (stA : Stages [] pcrNegA A),
+      (∀ (i : Nat) (s : Stmt), stA.ss4[i]? = some s → Unmoved 0x100 stA.ss4 s) ∧
+      ∀ (i : Nat) (t t' : Stmt), A.stmts[i]? = some t → B.stmts[i]? = some t' →
+        t'.pkg.additional = t.pkg.additional ∧ stmtBytes t' = stmtBytes t := by
+  obtain ⟨⟨A, hA, _⟩, ⟨B, hB, _⟩⟩ := reloc_signed_pcr_negative_target_fixed
+  obtain ⟨stB⟩ := assemble_stages hB
+  have hhd : ∃ lab n rest, lab.all isLabelCh = true ∧ n < 65536 ∧ pcrNegA = orgLine lab n :: rest :=
+    ⟨[], 0x0100, pcrNegBody, by decide, by omega, rfl⟩
+  refine ⟨A, B, hA, hB, ?_⟩
+  intro stA
+  have hcov : ∀ (i : Nat) (s : Stmt), stA.ss4[i]? = some s → Unmoved 0x100 stA.ss4 s := by
+    have hc := pcrNegA_classes
+    cases h4 : stage4 pcrNegA with
+    | none => rw [h4] at hc; cases hc
+    | some x =>
+      rw [h4] at hc
+      simp only [Option.map_some, Option.some.injEq] at hc
+      rw [stage4_eq stA h4]
+      intro i s hs
+      have hm : unmovedB 0x100 x s ∈ x.map (fun s => unmovedB 0x100 x s) :=
+        List.mem_map.mpr ⟨s, List.mem_of_getElem? hs, rfl⟩
+      rw [hc] at hm
+      simp at hm
+      exact unmovedB_sound hm
+  refine ⟨hcov, ?_⟩
+  intro i t t' ht ht'
+  obtain ⟨s4, hs4, _⟩ := (fixAll_pw stA.hfix).get' ht
+  exact ((C18_R1_code pcrNeg_shift hhd stA stB).2.2.2.1 i s4 t t' hs4 ht ht').1 (hcov i s4 hs4)
+
+/-! ## a label as constant offset of a pointer register, `[label+1]` (repair batch B3) -/
+
+/-- the body of the indexed sample program: a plain label, `label+1` and a bracketed label as constant offset of a
+pointer register (accepted since B3: the 16-bit offset form, post bytes `$89`, `$A9`, `$D9`), and `[label+1]` (extended
+indirect with an address expression, post byte `$9F`, accepted since B3) -/
+def idxBody : List Str :=
+  ["T FCB 1\n", " LDA T,X\n", " LDB T+1,Y\n", " LDD [T,U]\n", " LDA [T+1]\n"].map String.toList
+
+def idxA : List Str := orgLine [] 0x0100 :: idxBody
+def idxB : List Str := orgLine [] 0x0200 :: idxBody
+
+example : idxA = lines [" ORG $0100\n", "T FCB 1\n", " LDA T,X\n", " LDB T+1,Y\n", " LDD [T,U]\n", " LDA [T+1]\n"] := by
+  decide
+example : idxB = lines [" ORG $0200\n", "T FCB 1\n", " LDA T,X\n", " LDB T+1,Y\n", " LDD [T,U]\n", " LDA [T+1]\n"] := by
+  decide
+
+/-- the images, evaluated (and replayed on the Python): `LDA T,X` is `A6 89 0100` / `A6 89 0200`, `LDB T+1,Y` is
+`E6 A9 0101` / `E6 A9 0201`, `LDD [T,U]` is `EC D9 0100` / `EC D9 0200`, `LDA [T+1]` is `A6 9F 0101` / `A6 9F 0201`: op
+code and post byte identical, every 16-bit field moved by `$100` -/
+def idxImageA : Bytes :=
+  [0x01, 0xA6, 0x89, 0x01, 0x00, 0xE6, 0xA9, 0x01, 0x01, 0xEC, 0xD9, 0x01, 0x00, 0xA6, 0x9F, 0x01, 0x01]
+def idxImageB : Bytes :=
+  [0x01, 0xA6, 0x89, 0x02, 0x00, 0xE6, 0xA9, 0x02, 0x01, 0xEC, 0xD9, 0x02, 0x00, 0xA6, 0x9F, 0x02, 0x01]
+
+set_option maxRecDepth 1000000 in
+theorem idxA_ok : checkProgram idxA (fun A => A.image == some idxImageA) = true := by decide
+set_option maxRecDepth 1000000 in
+theorem idxB_ok : checkProgram idxB (fun A => A.image == some idxImageB) = true := by decide
+
+theorem idx_shift : ShiftOrgP 0x100 (OrgOk 0x100) idxA idxB :=
+  shiftOrgP_single [] 0x0100 idxBody (by decide) (by unfold OrgOk; omega) (by omega) (by decide)
+
+set_option maxRecDepth 1000000 in
+theorem idxA_cover : (stage4 idxA).map (coverB 0x100) = some true := by decide
+
+set_option maxRecDepth 1000000 in
+/-- statement by statement (`unmovedB`, `movedRefB`, `movedAbsB`): ORG and `FCB 1` are `Unmoved`; `LDA T,X`, `LDB T+1,Y`
+and `LDD [T,U]` are in the NEW sub-class `MovedAbs` of `Moved` (and not `Unmoved`: `needsRes` without post byte
+choices); `LDA [T+1]` is in the old sub-class `MovedRef` -/
+theorem idxA_classes :
+    (stage4 idxA).map (fun as => as.map (fun s => (unmovedB 0x100 as s, movedRefB 0x100 as s, movedAbsB 0x100 as s)))
+      = some [(true, false, false), (true, false, false), (false, false, true), (false, false, true),
+              (false, false, true), (false, true, false)] := by decide
+
+/-- the indexed sample program relocated by `$100`: both assemble to the images above; the hypotheses of `C18_R1_code`
+hold; EVERY statement that enters `fixAll` is in one of the two classes (so `reloc_fixAll` / `reloc_finish` speak about
+the whole program), and statement by statement the operand field is identical (`Unmoved`) or moved by `$100` (`Moved`:
+the label as constant offset of `X`, `Y`, `[,U]` and `[T+1]`), the emitted bytes ending with the moved 16-bit field -/
+theorem reloc_indexed_witness : ∃ A B, assemble [] idxA = .ok A ∧ assemble [] idxB = .ok B ∧
+    A.image = some idxImageA ∧ B.image = some idxImageB ∧
+    PW (AddrShift 0x100) A.stmts B.stmts ∧
+    ∀ (stA : Stages [] idxA A),
+      (∀ (i : Nat) (s : Stmt), stA.ss4[i]? = some s → Unmoved 0x100 stA.ss4 s ∨ Moved 0x100 stA.ss4 s) ∧
+      ∀ (i : Nat) (s4 t t' : Stmt), stA.ss4[i]? = some s4 → A.stmts[i]? = some t → B.stmts[i]? = some t' →
+        (Unmoved 0x100 stA.ss4 s4 ∧ t'.pkg.additional = t.pkg.additional ∧ stmtBytes t' = stmtBytes t) ∨
+        (Moved 0x100 stA.ss4 s4 ∧ t'.pkg.additional = shiftV 0x100 t.pkg.additional ∧
+          ∀ bs, stmtBytes t = some bs →
+            ∃ pre x, t.pkg.additional.int? = some x ∧ x + 0x100 < 65536 ∧ bs = pre ++ [x / 256, x % 256] ∧
+              stmtBytes t' = some (pre ++ [(x + 0x100) / 256, (x + 0x100) % 256])) := by
+  obtain ⟨A, hA, cA⟩ := checkProgram_sound idxA_ok []
+  obtain ⟨B, hB, cB⟩ := checkProgram_sound idxB_ok []
+  have hhd : ∃ lab n rest, lab.all isLabelCh = true ∧ n < 65536 ∧ idxA = orgLine lab n :: rest :=
+    ⟨[], 0x0100, idxBody, by decide, by omega, rfl⟩
+  obtain ⟨stB⟩ := assemble_stages hB
+  have hcov : ∀ (stA : Stages [] idxA A) (i : Nat) (s : Stmt), stA.ss4[i]? = some s →
+      Unmoved 0x100 stA.ss4 s ∨ Moved 0x100 stA.ss4 s := by
+    intro stA
+    have hc := idxA_cover
+    cases h4 : stage4 idxA with
+    | none => rw [h4] at hc; cases hc
+    | some x =>
+      rw [h4] at hc
+      simp only [Option.map_some, Option.some.injEq] at hc
+      rw [stage4_eq stA h4]
+      exact coverB_sound hc
+  obtain ⟨stA0⟩ := assemble_stages hA
+  refine ⟨A, B, hA, hB, by simpa using cA, by simpa using cB, (C18_R1_code idx_shift hhd stA0 stB).2.2.1, ?_⟩
+  intro stA
+  refine ⟨hcov stA, ?_⟩
+  intro i s4 t t' hs4 ht ht'
+  obtain ⟨hu, hm⟩ := (C18_R1_code idx_shift hhd stA stB).2.2.2.1 i s4 t t' hs4 ht ht'
+  rcases hcov stA i s4 hs4 with hc | hc
+  · exact .inl ⟨hc, hu hc⟩
+  · exact .inr ⟨hc, hm hc⟩
+
+/-- the body of the wrap-around indexed sample: `A+N` with `N EQU -384` is negative when `A` is at `$0100`; as constant
+offset of `X`, as PCR target, and as bracketed constant offset of `Y` -/
+def idxWrapBody : List Str := ["N EQU -384\n", "A LDA A+N,X\n", " LEAX A+N,PCR\n", " LDD [A+N,Y]\n"].map String.toList
+def idxWrapA : List Str := orgLine [] 0x0100 :: idxWrapBody
+def idxWrapB : List Str := orgLine [] 0x0200 :: idxWrapBody
+
+example : idxWrapA = lines [" ORG $0100\n", "N EQU -384\n", "A LDA A+N,X\n", " LEAX A+N,PCR\n", " LDD [A+N,Y]\n"] := by
+  decide
+
+/-- `LDA A+N,X` is `A6 89 FF80` / `A6 89 0080` and `LDD [A+N,Y]` is `EC B9 FF80` / `EC B9 0080` (the offset field moves
+by `$100` modulo `$10000`); `LEAX A+N,PCR` is `30 8D FE78` in both placements -/
+def idxWrapImageA : Bytes := [0xA6, 0x89, 0xFF, 0x80, 0x30, 0x8D, 0xFE, 0x78, 0xEC, 0xB9, 0xFF, 0x80]
+def idxWrapImageB : Bytes := [0xA6, 0x89, 0x00, 0x80, 0x30, 0x8D, 0xFE, 0x78, 0xEC, 0xB9, 0x00, 0x80]
+
+set_option maxRecDepth 1000000 in
+theorem idxWrapA_ok : checkProgram idxWrapA (fun A => A.image == some idxWrapImageA) = true := by decide
+set_option maxRecDepth 1000000 in
+theorem idxWrapB_ok : checkProgram idxWrapB (fun A => A.image == some idxWrapImageB) = true := by decide
+
+theorem idxWrap_shift : ShiftOrgP 0x100 (OrgOk 0x100) idxWrapA idxWrapB :=
+  shiftOrgP_single [] 0x0100 idxWrapBody (by decide) (by unfold OrgOk; omega) (by omega) (by decide)
+
+set_option maxRecDepth 1000000 in
+/-- statement by statement (`unmovedB`, `movedB`, `movedModRefB`, `movedModAbsB`): ORG, EQU and `LEAX A+N,PCR` — a PCR
+operand whose NEGATIVE target is reduced modulo `$10000` and moves by `D` modulo `$10000` (`TargetMovesMod`) — are
+`Unmoved`; `LDA A+N,X` and `LDD [A+N,Y]` are in the new sub-class `MovedModAbs` of `MovedMod` -/
+theorem idxWrapA_classes :
+    (stage4 idxWrapA).map (fun as => as.map (fun s =>
+        (unmovedB 0x100 as s, movedB 0x100 as s, movedModRefB 0x100 as s, movedModAbsB 0x100 as s)))
+      = some [(true, false, false, false), (true, false, false, false), (false, false, false, true),
+              (true, false, false, false), (false, false, false, true)] := by decide
+
+set_option maxRecDepth 1000000 in
+theorem idxWrapA_cover : (stage4 idxWrapA).map (coverModB 0x100) = some true := by decide
+
+/-- the wrap-around indexed sample under the three-class theorems: both assemble to the images above; every statement
+that enters `fixAll` is `Unmoved`, `Moved` or `MovedMod`; the `Unmoved` statements (the PCR operand with the negative
+target among them) have IDENTICAL code, and for the `MovedMod` statements the 16-bit offset field moves by `$100` modulo
+`$10000` -/
+theorem reloc_indexed_wrap_witness : ∃ A B, assemble [] idxWrapA = .ok A ∧ assemble [] idxWrapB = .ok B ∧
+    A.image = some idxWrapImageA ∧ B.image = some idxWrapImageB ∧
+    ∀ (stA : Stages [] idxWrapA A),
+      (∀ (i : Nat) (s : Stmt), stA.ss4[i]? = some s →
+        Unmoved 0x100 stA.ss4 s ∨ Moved 0x100 stA.ss4 s ∨ MovedMod 0x100 stA.ss4 s) ∧
+      ∀ (i : Nat) (s4 t t' : Stmt), stA.ss4[i]? = some s4 → A.stmts[i]? = some t → B.stmts[i]? = some t' →
+        (Unmoved 0x100 stA.ss4 s4 → t'.pkg.additional = t.pkg.additional ∧ stmtBytes t' = stmtBytes t) ∧
+        (MovedMod 0x100 stA.ss4 s4 → t'.pkg.additional = shiftVmod 0x100 t.pkg.additional) := by
+  obtain ⟨A, hA, cA⟩ := checkProgram_sound idxWrapA_ok []
+  obtain ⟨B, hB, cB⟩ := checkProgram_sound idxWrapB_ok []
+  obtain ⟨stB⟩ := assemble_stages hB
+  have hhd : ∃ lab n rest, lab.all isLabelCh = true ∧ n < 65536 ∧ idxWrapA = orgLine lab n :: rest :=
+    ⟨[], 0x0100, idxWrapBody, by decide, by omega, rfl⟩
+  refine ⟨A, B, hA, hB, by simpa using cA, by simpa using cB, ?_⟩
+  intro stA
+  constructor
+  · have hc := idxWrapA_cover
+    cases h4 : stage4 idxWrapA with
+    | none => rw [h4] at hc; cases hc
+    | some x =>
+      rw [h4] at hc
+      simp only [Option.map_some, Option.some.injEq] at hc
+      rw [stage4_eq stA h4]
+      exact coverModB_sound hc
+  · intro i s4 t t' hs4 ht ht'
+    exact ⟨((C18_R1_code idxWrap_shift hhd stA stB).2.2.2.1 i s4 t t' hs4 ht ht').1,
+      fun hc => (C18_R1_code_mod idxWrap_shift hhd stA stB i s4 t t' hs4 ht ht' hc).1⟩
+
+/-! ## `number - label` (repair batch B3): the fourth class -/
+
+/-- the body of the `number - label` sample -/
+def negBody : List Str := ["L FDB 5-L\n", " LDX #$4000-L\n"].map String.toList
+def negA : List Str := orgLine [] 0x0100 :: negBody
+def negB : List Str := orgLine [] 0x0200 :: negBody
+
+example : negA = lines [" ORG $0100\n", "L FDB 5-L\n", " LDX #$4000-L\n"] := by decide
+
+/-- `FDB 5-L` is `5 - $0100 = $FF05` (modulo `$10000`) / `$FE05`, `LDX #$4000-L` is `8E 3F00` / `8E 3E00`: the fields
+move by MINUS `$100` (before B3 `5-L` was read as `L-5`) -/
+def negImageA : Bytes := [0xFF, 0x05, 0x8E, 0x3F, 0x00]
+def negImageB : Bytes := [0xFE, 0x05, 0x8E, 0x3E, 0x00]
+
+set_option maxRecDepth 1000000 in
+theorem negA_ok : checkProgram negA (fun A => A.image == some negImageA) = true := by decide
+set_option maxRecDepth 1000000 in
+theorem negB_ok : checkProgram negB (fun A => A.image == some negImageB) = true := by decide
+
+theorem neg_shift : ShiftOrgP 0x100 (OrgOk 0x100) negA negB :=
+  shiftOrgP_single [] 0x0100 negBody (by decide) (by unfold OrgOk; omega) (by omega) (by decide)
+
+set_option maxRecDepth 1000000 in
+/-- statement by statement (`unmovedB`, `movedB`, `movedModB`, `movedNegB`): the ORG is `Unmoved`; `FDB 5-L` and
+`LDX #$4000-L` are in NONE of the three old classes (the checkers say no), they are `MovedNeg` -/
+theorem negA_classes :
+    (stage4 negA).map (fun as => as.map (fun s =>
+        (unmovedB 0x100 as s, movedB 0x100 as s, movedModB 0x100 as s, movedNegB as s)))
+      = some [(true, false, false, false), (false, false, false, true), (false, false, false, true)] := by decide
+
+set_option maxRecDepth 1000000 in
+theorem negA_cover : (stage4 negA).map (coverNegB 0x100) = some true := by decide
+
+/-- the `number - label` sample under the four-class theorems: both assemble to the images above; every statement that
+enters `fixAll` is `Unmoved`, `Moved`, `MovedMod` or `MovedNeg` (so `reloc_fixAll_neg` / `reloc_finish_neg` speak about
+the whole program), and for the `MovedNeg` statements the operand field moves by MINUS `$100` modulo `$10000`
+(`C18_R1_code_neg`) -/
+theorem reloc_neg_witness : ∃ A B, assemble [] negA = .ok A ∧ assemble [] negB = .ok B ∧
+    A.image = some negImageA ∧ B.image = some negImageB ∧
+    ∀ (stA : Stages [] negA A),
+      (∀ (i : Nat) (s : Stmt), stA.ss4[i]? = some s →
+        Unmoved 0x100 stA.ss4 s ∨ Moved 0x100 stA.ss4 s ∨ MovedMod 0x100 stA.ss4 s ∨ MovedNeg stA.ss4 s) ∧
+      ∀ (i : Nat) (s4 t t' : Stmt), stA.ss4[i]? = some s4 → A.stmts[i]? = some t → B.stmts[i]? = some t' →
+        MovedNeg stA.ss4 s4 → t'.pkg.additional = shiftVneg 0x100 t.pkg.additional := by
+  obtain ⟨A, hA, cA⟩ := checkProgram_sound negA_ok []
+  obtain ⟨B, hB, cB⟩ := checkProgram_sound negB_ok []
+  obtain ⟨stB⟩ := assemble_stages hB
+  have hhd : ∃ lab n rest, lab.all isLabelCh = true ∧ n < 65536 ∧ negA = orgLine lab n :: rest :=
+    ⟨[], 0x0100, negBody, by decide, by omega, rfl⟩
+  refine ⟨A, B, hA, hB, by simpa using cA, by simpa using cB, ?_⟩
+  intro stA
+  constructor
+  · have hc := negA_cover
+    cases h4 : stage4 negA with
+    | none => rw [h4] at hc; cases hc
+    | some x =>
+      rw [h4] at hc
+      simp only [Option.map_some, Option.some.injEq] at hc
+      rw [stage4_eq stA h4]
+      exact coverNegB_sound hc
+  · intro i s4 t t' hs4 ht ht' hc
+    exact (C18_R1_code_neg neg_shift hhd stA stB i s4 t t' hs4 ht ht' hc).1
+
+set_option maxRecDepth 1000000 in
+/-- the classes of the B3 no-claim sample (`unmovedB`, `movedB`, `movedModB`, `movedNegB`): ORG and `A NOP` are
+`Unmoved`; `LDX #2*A`, `LDX #$8000/A` and `LDA 5-A,X` are in NONE of the four classes -/
+theorem noClaimB3_classes :
+    (stage4 (lines [" ORG $1000\n", "A NOP\n", " LDX #2*A\n", " LDX #$8000/A\n", " LDA 5-A,X\n"])).map
+        (fun as => as.map (fun s => (unmovedB 0x100 as s, movedB 0x100 as s, movedModB 0x100 as s, movedNegB as s)))
+      = some [(true, false, false, false), (true, false, false, false), (false, false, false, false),
+              (false, false, false, false), (false, false, false, false)] := by decide
+
+/-- (vii) the forms of B3 without a claim: `number * label` is multiplied AFTER the move (`#2*A`: `$2000` / `$2200`),
+`number / label` is divided after the move (`#$8000/A`: `$0008` / `$0007`), and `number - label` as constant offset of a
+pointer register (`LDA 5-A,X`: `A6 89 F005` / `A6 89 EF05`) moves by MINUS `D` like the operand form `MovedNeg`, for
+which only the operand form has a class.  Both programs are accepted. -/
+theorem reloc_no_claim_b3 :
+    (∃ A, assemble [] (lines [" ORG $1000\n", "A NOP\n", " LDX #2*A\n", " LDX #$8000/A\n", " LDA 5-A,X\n"]) = .ok A ∧
+      A.image = some [0x12, 0x8E, 0x20, 0x00, 0x8E, 0x00, 0x08, 0xA6, 0x89, 0xF0, 0x05]) ∧
+    (∃ B, assemble [] (lines [" ORG $1100\n", "A NOP\n", " LDX #2*A\n", " LDX #$8000/A\n", " LDA 5-A,X\n"]) = .ok B ∧
+      B.image = some [0x12, 0x8E, 0x22, 0x00, 0x8E, 0x00, 0x07, 0xA6, 0x89, 0xEF, 0x05]) := by
+  constructor
+  · obtain ⟨A, hA, c⟩ := checkProgram_sound
+      (lines := lines [" ORG $1000\n", "A NOP\n", " LDX #2*A\n", " LDX #$8000/A\n", " LDA 5-A,X\n"])
+      (check := fun A => A.image == some [0x12, 0x8E, 0x20, 0x00, 0x8E, 0x00, 0x08, 0xA6, 0x89, 0xF0, 0x05])
+      (by decide) []
+    exact ⟨A, hA, by simpa using c⟩
+  · obtain ⟨B, hB, c⟩ := checkProgram_sound
+      (lines := lines [" ORG $1100\n", "A NOP\n", " LDX #2*A\n", " LDX #$8000/A\n", " LDA 5-A,X\n"])
+      (check := fun A => A.image == some [0x12, 0x8E, 0x22, 0x00, 0x8E, 0x00, 0x07, 0xA6, 0x89, 0xEF, 0x05])
+      (by decide) []
+    exact ⟨B, hB, by simpa using c⟩
+
+/-- (viii) why `MovedMod` (`ModBound`) asks for `a - c + D ≤ $FFFF` for `label - N` as well since repair batch B3:
+with a NEGATIVE `N` the difference can pass `$FFFF`, and `calculate_address_offset` now rejects it ("integer value cannot
+exceed 65535"; before B3 `label - N` was reduced modulo `$10000` whatever its size and never rejected).  `A FDB A-N`
+with `N EQU -256` is `$FF00` at `$FE00` and REJECTED at `$FF00`: through a signed constant the OUTCOME KIND changes under
+relocation, although the relocated program itself fits the 64K space. -/
+theorem reloc_label_minus_overflow :
+    (∃ A, assemble [] (lines [" ORG $FE00\n", "N EQU -256\n", "A FDB A-N\n"]) = .ok A ∧ A.image = some [0xFF, 0x00]) ∧
+    assemble [] (lines [" ORG $FF00\n", "N EQU -256\n", "A FDB A-N\n"]) = .diag := by
+  constructor
+  · obtain ⟨A, hA, c⟩ := checkProgram_sound (lines := lines [" ORG $FE00\n", "N EQU -256\n", "A FDB A-N\n"])
+      (check := fun A => A.image == some [0xFF, 0x00]) (by decide) []
+    exact ⟨A, hA, by simpa using c⟩
+  · exact checkDiag_sound (by decide) []
+
+set_option maxRecDepth 1000000 in
+/-- the `FDB A-N` of (viii) is in none of the four classes for `D = $100` (evaluated) -/
+theorem labelMinusOverflow_classes :
+    (stage4 (lines [" ORG $FE00\n", "N EQU -256\n", "A FDB A-N\n"])).map
+        (fun as => as.map (fun s => (unmovedB 0x100 as s, movedB 0x100 as s, movedModB 0x100 as s, movedNegB as s)))
+      = some [(true, false, false, false), (true, false, false, false), (false, false, false, false)] := by decide
 
 end CoCo.Props
